@@ -1,0 +1,76 @@
+//go:build verif
+
+// Contracts for the acv verifier (/verif). Comment-only file: no executable code.
+
+package types
+
+// ---- Int4DataTypeEncoder: declared type or failure policy, never a partly converted value (C19) ----
+//@ func (t *Int4DataTypeEncoder) Encode(ctx context.Context, data []byte, format type_awareness.DataTypeFormat) (outCtx context.Context, out []byte, err error)
+//@   props C19 C14
+//@   safety
+//@   noinline EncodeOnFail
+//@   ensures binary-exact: ret(strconv.ParseInt)[1] == nil && ret(DataTypeFormat.IsBinaryFormat)[0] ==> err == nil && len(out) == 4 && be32(out) == uint32(ret(strconv.ParseInt)[0])
+//@   ensures text-unchanged: ret(strconv.ParseInt)[1] == nil && !ret(DataTypeFormat.IsBinaryFormat)[0] ==> err == nil && sameslice(out, data)
+//@   ensures policy-error-propagates: called(Int4DataTypeEncoder.EncodeOnFail) && ret(Int4DataTypeEncoder.EncodeOnFail)[2] != nil ==> err == ret(Int4DataTypeEncoder.EncodeOnFail)[2] && out == nil
+//@   ensures policy-value-used: called(Int4DataTypeEncoder.EncodeOnFail) && ret(Int4DataTypeEncoder.EncodeOnFail)[2] == nil && ret(Int4DataTypeEncoder.EncodeOnFail)[1] != nil ==> sameslice(out, ret(Int4DataTypeEncoder.EncodeOnFail)[1])
+//@   ensures whole-or-nothing: err == nil ==> sameslice(out, data) || (len(out) == 4 && fresh(out)) || (called(Int4DataTypeEncoder.EncodeOnFail) && sameslice(out, ret(Int4DataTypeEncoder.EncodeOnFail)[1]))
+//@   ensures policy-consulted-when-unreadable: ret(strconv.ParseInt)[1] != nil && !ret(base.IsDecryptedFromContext)[0] ==> called(Int4DataTypeEncoder.EncodeOnFail)
+//@   at call strconv.ParseInt : assert arg[1] == 10 && arg[2] == 32
+
+//@ func (t *Int4DataTypeEncoder) EncodeOnFail(ctx context.Context, format type_awareness.DataTypeFormat) (outCtx context.Context, out []byte, err error)
+//@   props C19
+//@   noinline encodeDefault
+//@   ensures ciphertext-or-empty: ret(DataTypeFormat.GetResponseOnFail)[0] == common.ResponseOnFailEmpty || ret(DataTypeFormat.GetResponseOnFail)[0] == common.ResponseOnFailCiphertext ==> out == nil && err == nil
+//@   ensures error-policy: ret(DataTypeFormat.GetResponseOnFail)[0] == common.ResponseOnFailError ==> err != nil && out == nil
+//@   ensures default-policy: ret(DataTypeFormat.GetResponseOnFail)[0] == common.ResponseOnFailDefault && ret(DataTypeFormat.GetDefaultDataValue)[0] != nil ==> called(Int4DataTypeEncoder.encodeDefault) && err == ret(Int4DataTypeEncoder.encodeDefault)[2] && sameslice(out, ret(Int4DataTypeEncoder.encodeDefault)[1])
+//@   ensures unknown-policy-rejected: ret(DataTypeFormat.GetResponseOnFail)[0] != common.ResponseOnFailEmpty && ret(DataTypeFormat.GetResponseOnFail)[0] != common.ResponseOnFailCiphertext && ret(DataTypeFormat.GetResponseOnFail)[0] != common.ResponseOnFailDefault && ret(DataTypeFormat.GetResponseOnFail)[0] != common.ResponseOnFailError ==> err != nil
+
+//@ func (t *Int4DataTypeEncoder) encodeDefault(ctx context.Context, data []byte, format type_awareness.DataTypeFormat) (outCtx context.Context, out []byte, err error)
+//@   props C19 C14
+//@   safety
+//@   ensures unparsable-default-is-error: ret(strconv.ParseInt)[1] != nil ==> err != nil && out == nil
+//@   ensures binary-exact: ret(strconv.ParseInt)[1] == nil && ret(DataTypeFormat.IsBinaryFormat)[0] ==> err == nil && len(out) == 4 && be32(out) == uint32(ret(strconv.ParseInt)[0])
+//@   ensures text-unchanged: ret(strconv.ParseInt)[1] == nil && !ret(DataTypeFormat.IsBinaryFormat)[0] ==> err == nil && sameslice(out, data)
+//@   at call strconv.ParseInt : assert arg[1] == 10 && arg[2] == 32
+
+//@ func (t *Int4DataTypeEncoder) Decode(ctx context.Context, data []byte, format type_awareness.DataTypeFormat) (outCtx context.Context, out []byte, err error)
+//@   props C19 C14
+//@   safety
+//@   ensures sign-extended: ret(DataTypeFormat.IsBinaryFormat)[0] && len(data) == 4 ==> called(strconv.FormatInt) && argof(strconv.FormatInt)[0] == int64(int32(be32(data)))
+//@   ensures eight-bytes: ret(DataTypeFormat.IsBinaryFormat)[0] && len(data) == 8 ==> called(strconv.FormatInt) && uint64(argof(strconv.FormatInt)[0]) == be64(data)
+//@   ensures other-lengths-unchanged: ret(DataTypeFormat.IsBinaryFormat)[0] && len(data) != 4 && len(data) != 8 ==> sameslice(out, data) && err == nil
+
+// ---- Int8DataTypeEncoder: declared type or failure policy, never a partly converted value (C19) ----
+//@ func (t *Int8DataTypeEncoder) Encode(ctx context.Context, data []byte, format type_awareness.DataTypeFormat) (outCtx context.Context, out []byte, err error)
+//@   props C19 C14
+//@   safety
+//@   noinline EncodeOnFail
+//@   ensures binary-exact: ret(strconv.ParseInt)[1] == nil && ret(DataTypeFormat.IsBinaryFormat)[0] ==> err == nil && len(out) == 8 && be64(out) == uint64(ret(strconv.ParseInt)[0])
+//@   ensures text-unchanged: ret(strconv.ParseInt)[1] == nil && !ret(DataTypeFormat.IsBinaryFormat)[0] ==> err == nil && sameslice(out, data)
+//@   ensures policy-error-propagates: called(Int8DataTypeEncoder.EncodeOnFail) && ret(Int8DataTypeEncoder.EncodeOnFail)[2] != nil ==> err == ret(Int8DataTypeEncoder.EncodeOnFail)[2] && out == nil
+//@   ensures policy-value-used: called(Int8DataTypeEncoder.EncodeOnFail) && ret(Int8DataTypeEncoder.EncodeOnFail)[2] == nil && ret(Int8DataTypeEncoder.EncodeOnFail)[1] != nil ==> sameslice(out, ret(Int8DataTypeEncoder.EncodeOnFail)[1])
+//@   ensures whole-or-nothing: err == nil ==> sameslice(out, data) || (len(out) == 8 && fresh(out)) || (called(Int8DataTypeEncoder.EncodeOnFail) && sameslice(out, ret(Int8DataTypeEncoder.EncodeOnFail)[1]))
+//@   ensures policy-consulted-when-unreadable: ret(strconv.ParseInt)[1] != nil && !ret(base.IsDecryptedFromContext)[0] ==> called(Int8DataTypeEncoder.EncodeOnFail)
+//@   at call strconv.ParseInt : assert arg[1] == 10 && arg[2] == 64
+
+//@ func (t *Int8DataTypeEncoder) EncodeOnFail(ctx context.Context, format type_awareness.DataTypeFormat) (outCtx context.Context, out []byte, err error)
+//@   props C19
+//@   noinline encodeDefault
+//@   ensures ciphertext-or-empty: ret(DataTypeFormat.GetResponseOnFail)[0] == common.ResponseOnFailEmpty || ret(DataTypeFormat.GetResponseOnFail)[0] == common.ResponseOnFailCiphertext ==> out == nil && err == nil
+//@   ensures error-policy: ret(DataTypeFormat.GetResponseOnFail)[0] == common.ResponseOnFailError ==> err != nil && out == nil
+//@   ensures default-policy: ret(DataTypeFormat.GetResponseOnFail)[0] == common.ResponseOnFailDefault && ret(DataTypeFormat.GetDefaultDataValue)[0] != nil ==> called(Int8DataTypeEncoder.encodeDefault) && err == ret(Int8DataTypeEncoder.encodeDefault)[2] && sameslice(out, ret(Int8DataTypeEncoder.encodeDefault)[1])
+//@   ensures unknown-policy-rejected: ret(DataTypeFormat.GetResponseOnFail)[0] != common.ResponseOnFailEmpty && ret(DataTypeFormat.GetResponseOnFail)[0] != common.ResponseOnFailCiphertext && ret(DataTypeFormat.GetResponseOnFail)[0] != common.ResponseOnFailDefault && ret(DataTypeFormat.GetResponseOnFail)[0] != common.ResponseOnFailError ==> err != nil
+
+//@ func (t *Int8DataTypeEncoder) encodeDefault(ctx context.Context, data []byte, format type_awareness.DataTypeFormat) (outCtx context.Context, out []byte, err error)
+//@   props C19 C14
+//@   safety
+//@   ensures unparsable-default-is-error: ret(strconv.ParseInt)[1] != nil ==> err != nil && out == nil
+//@   ensures binary-exact: ret(strconv.ParseInt)[1] == nil && ret(DataTypeFormat.IsBinaryFormat)[0] ==> err == nil && len(out) == 8 && be64(out) == uint64(ret(strconv.ParseInt)[0])
+//@   ensures text-unchanged: ret(strconv.ParseInt)[1] == nil && !ret(DataTypeFormat.IsBinaryFormat)[0] ==> err == nil && sameslice(out, data)
+//@   at call strconv.ParseInt : assert arg[1] == 10 && arg[2] == 64
+
+//@ func (t *Int8DataTypeEncoder) Decode(ctx context.Context, data []byte, format type_awareness.DataTypeFormat) (outCtx context.Context, out []byte, err error)
+//@   props C19 C14
+//@   safety
+//@   ensures eight-bytes: ret(DataTypeFormat.IsBinaryFormat)[0] && len(data) == 8 ==> called(strconv.FormatInt) && uint64(argof(strconv.FormatInt)[0]) == be64(data)
+//@   ensures other-lengths-unchanged: ret(DataTypeFormat.IsBinaryFormat)[0] && len(data) != 8 ==> sameslice(out, data) && err == nil
